@@ -69,6 +69,8 @@ def bucket_for(quantity, method, Z, geoms):
     code switches branch at 1e-10). Everything else is reported under its own quantity/orientation bucket."""
     if method == "PM6" and quantity != "exception" and sum(1 for z in Z if 13 <= z <= 17) >= 2:
         return "pm6_dd_pair_rotation"
+    if quantity != "exception" and any(heavy_axis_labels(Z, g) & {"+x", "-x"} for g in geoms):
+        return "xaxis_frame_singularity"
     if method == "PM6" and quantity in GRADIENT_QUANTITIES and min(min_polar_xy(Z, g) for g in geoms) < 1e-9:
         return "pm6_zpole_gradient"
     ax = set()
